@@ -16,7 +16,10 @@ import reftext
 PID = 'C06'
 FAM = {s.sid: s for s in S.family_F()}
 FAM['I1'] = Schema('I1', [Opt('func', 'include', '', None, 'i'), Opt('int', 'i', '', 5), Opt('str', 's', '', b'q'),
-                          Opt('sec', 'sec', '', sub=[Opt('int', 'x', '', 1), Opt('func', 'include', '', None, 'i')]), Opt('sec', 'm', 'M', sub=[Opt('int', 'x', '', 1), Opt('func', 'include', '', None, 'i')])])
+                          Opt('sec', 'sec', '', sub=[Opt('int', 'x', '', 1), Opt('func', 'include', '', None, 'i')]), Opt('sec', 'm', 'M', sub=[Opt('int', 'x', '', 1), Opt('func', 'include', '', None, 'i'), Opt('int', 'ml', 'L', [b'1', b'2'])])])
+FAM['CB1'] = Schema('CB1', [Opt('int', 'a', '', 5, 'pv'), Opt('int', 'l', 'L', [b'1'], 'pv'),
+                            Opt('sec', 's', 'M', sub=[Opt('int', 'x', '', 1, 'pv')], cbs='v'),
+                            Opt('sec', 't', '', sub=[Opt('int', 'y', '', 1, 'v')], cbs='v'), Opt('func', 'fn', '', None, 'u')])
 USE = ['F01', 'F03', 'F05', 'F06', 'F07', 'F08', 'F09', 'F11', 'F13', 'F15', 'F16']
 SEPS = [b'\n', b'\n\n', b' # c\n', b' // c\n', b' /* c */ ', b' /* a\nb */ ', b' /* a *\n * b\n */ ']
 BATCH = 300
@@ -108,6 +111,31 @@ def judge(st, sid, sch, case, res, m, fname, label):
             st.violation('wrong-line:%s' % label, script, 'line %d..%d (%s)' % (lo, hi, m.why), diags[-1])
 
 
+def judge_positions(st, sid, sch, case, res, m, fname):
+    """the position every callback sees in the context it is handed (what a diagnostic issued from the callback carries):
+    the last line of the token that completes the value / element / list / section / call it is invoked for"""
+    if res.status in ('crash', 'hang') or m.verdict == UNSPEC:
+        return
+    got = [l for l in res.lines if l.startswith('cbpos ')]
+    want = []
+    for ev in m.res.events:
+        tk = ev[-1]
+        if tk is None:
+            return
+        want.append('cbpos %s %d' % (enc(tk.file if tk.file is not None else fname), tk.eline))
+    # the statement fixes when a validation call happens, not how often: consecutive identical positions collapse
+    def collapse(seq):
+        out = []
+        for x in seq:
+            if not out or out[-1] != x:
+                out.append(x)
+        return out
+    st.validated += 1
+    if collapse(got) != collapse(want):
+        script = 'schema %s %s\n%s' % (sid, sch.spec(), case.script())
+        st.violation('wrong-position-seen-by-callback', script, '\n'.join(want) or '(no callback)', '\n'.join(got) or '(no callback)')
+
+
 def shard_layout(shard):
     sid, flags, N, dev, prefixes, deadline = shard
     sch = FAM[sid]
@@ -119,9 +147,12 @@ def shard_layout(shard):
     buf = []
 
     def flush():
-        cases = [Case(['init A %s %d' % (sid, flags), 'parse_buf A ' + enc(t)]) for t, _ in buf]
+        pre = ['cb_pos 1', 'cb_quiet 1'] if sid == 'CB1' else []
+        cases = [Case(['init A %s %d' % (sid, flags)] + pre + ['parse_buf A ' + enc(t)]) for t, _ in buf]
         for (t, m), c, r in zip(buf, cases, drv.run(cases)):
             judge(st, sid, sch, c, r, m, b'[buf]', 'layout')
+            if sid == 'CB1':
+                judge_positions(st, sid, sch, c, r, m, b'[buf]')
             st.transitions += 1
             if len(st.samples) < 1 and m.verdict == REJECT and b'\n' in t:
                 st.samples.append({'schema': sid, 'text': t.decode('latin-1'), 'expected_lines': m.err_lines, 'why': m.why})
@@ -263,6 +294,13 @@ def main():
     quick = ck.tier == 'quick'
     dl = ck.deadline
     plan = [(4, 1), ('inc', 4), (6, 0), ('deep', 7), (5, 1), (4, 2)] if quick else [(5, 1), ('inc', 5), ('deep', 9), (6, 1), (5, 2), (7, 0), (7, 1), (6, 2)]   # cheap and diverse first
+    # what the callbacks see: E1 N=5 [6] over the callback schema x 1 layout deviation
+    sch = FAM['CB1']
+    alpha = words_for(sch)
+    inner, frontier = viable_prefix_words(sch, 0, alpha, 2)
+    Ncb = 4 if quick else 5
+    shards = [('CB1', 0, 0, 1, inner, dl)] + [('CB1', 0, Ncb, 1, ch, dl) for ch in engine.chunks(frontier, 3)]
+    engine.phase(ck, 'positions seen by parse / validation / function callbacks: E1 N=%d x 1 layout deviation' % Ncb, shard_layout, shards, schemas=1)
     for (N, dev) in plan:
         if N == 'deep':
             # reduced alphabet, deeper: errors that need a whole section first (duplicate titles, errors after a closed section)
